@@ -919,6 +919,15 @@ func runStructAgree(c *Ctx) {
 // sideOf classifies a value as derived (by type assertion only) from
 // parameter 0 ("L") or parameter 1 ("R") of fn.
 func sideOf(fn *ssa.Function, v ssa.Value) string {
+	if len(fn.Params) < 2 {
+		return ""
+	}
+	return sideOfLR(fn.Params[0], fn.Params[1], v)
+}
+
+// sideOfLR is sideOf with the two operands given explicitly (they are
+// parameters of a helper when the comparator delegates to one).
+func sideOfLR(L, R ssa.Value, v ssa.Value) string {
 	v = fxStripNoConv(v)
 	if e, ok := v.(*ssa.Extract); ok && e.Index == 0 {
 		v = e.Tuple
@@ -926,13 +935,11 @@ func sideOf(fn *ssa.Function, v ssa.Value) string {
 	if ta, ok := v.(*ssa.TypeAssert); ok {
 		v = fxStripNoConv(ta.X)
 	}
-	if len(fn.Params) >= 2 {
-		if v == ssa.Value(fn.Params[0]) {
-			return "L"
-		}
-		if v == ssa.Value(fn.Params[1]) {
-			return "R"
-		}
+	if v == L {
+		return "L"
+	}
+	if v == R {
+		return "R"
 	}
 	return ""
 }
@@ -956,7 +963,24 @@ func runFormatKeyOrder(c *Ctx) {
 		c.Undecided(outer, c.P.Pos(outer.Pos()), "returned comparator", "DefaultKeyCompare does not return a single two-argument function literal")
 		return
 	}
-	cases, deflt := fxSwitchChain(fn.Blocks[0], fn.Params[0])
+	// the comparator may delegate to a named function (depth ≤ 2): analyse
+	// that body with its parameters standing for the two keys / the marshaler
+	var L, R ssa.Value = fn.Params[0], fn.Params[1]
+	isMarsh := isCapturedFunc
+	for depth := 0; depth < 2; depth++ {
+		if cs, _ := fxSwitchChain(fn.Blocks[0], L); len(cs) > 0 {
+			break
+		}
+		callee, pL, pR, pM := delegatedComparator(fn, L, R, isMarsh)
+		if callee == nil {
+			break
+		}
+		fn, L, R = callee, pL, pR
+		m := pM
+		isMarsh = func(v ssa.Value) bool { return m != nil && fxStripNoConv(v) == m }
+	}
+	side := func(v ssa.Value) string { return sideOfLR(L, R, v) }
+	cases, deflt := fxSwitchChain(fn.Blocks[0], L)
 	if len(cases) == 0 {
 		c.Undecided(fn, c.P.Pos(fn.Pos()), "type switch", "the comparator does not start with a type switch over its first argument")
 		return
@@ -1001,7 +1025,7 @@ func runFormatKeyOrder(c *Ctx) {
 		}
 		switch name {
 		case "Key", "[]byte":
-			as := okAssume(fn, cs.T, nil, 0)
+			as := okAssumeSides(fn, side, cs.T, nil, 0)
 			reach := as.reach(cs.Body)
 			rets := successIn(fn, reach)
 			if len(rets) != 1 {
@@ -1013,10 +1037,10 @@ func runFormatKeyOrder(c *Ctx) {
 			ok := false
 			if call != nil && name == "Key" {
 				com := call.Common()
-				ok = com.IsInvoke() && com.Method.Name() == "Order" && sideOf(fn, com.Value) == "L" && len(com.Args) == 1 && sideOf(fn, com.Args[0]) == "R"
+				ok = com.IsInvoke() && com.Method.Name() == "Order" && side(com.Value) == "L" && len(com.Args) == 1 && side(com.Args[0]) == "R"
 			} else if call != nil {
 				sc := ir.Callee(call.Common())
-				ok = sc != nil && fxFullName(sc) == "bytes.Compare" && sideOf(fn, call.Common().Args[0]) == "L" && sideOf(fn, call.Common().Args[1]) == "R"
+				ok = sc != nil && fxFullName(sc) == "bytes.Compare" && side(call.Common().Args[0]) == "L" && side(call.Common().Args[1]) == "R"
 			}
 			if ok {
 				c.OK(c.P.InstrPos(r), construct, map[string]string{"Key": "returns v.Order(v2)", "[]byte": "returns bytes.Compare(v, v2)"}[name], false)
@@ -1031,7 +1055,7 @@ func runFormatKeyOrder(c *Ctx) {
 				r    int
 			}{{"<", -1}, {"==", 0}, {">", 1}} {
 				sub := construct + " " + rel.name
-				res := orderedResults(c, fn, func(v ssa.Value) string { return sideOf(fn, v) }, cs.Body, cs.T, rel.r, 0)
+				res := orderedResults(c, fn, side, cs.Body, cs.T, rel.r, 0)
 				if res.undecided != "" {
 					c.Undecided(res.inFn, res.pos, sub, res.undecided)
 					continue
@@ -1070,32 +1094,130 @@ func runFormatKeyOrder(c *Ctx) {
 	// fallback: bytes.Compare(marshal(i), marshal(i2))
 	{
 		construct := "fallback"
-		as := okAssume(fn, nil, nil, 1)
-		reach := as.reach(deflt)
-		rets := successIn(fn, reach)
 		pos := c.P.Pos(fn.Pos())
 		if len(deflt.Instrs) > 0 {
 			pos = c.P.InstrPos(deflt.Instrs[0])
 		}
-		if len(rets) != 1 {
-			c.Undecided(fn, pos, construct, fmt.Sprintf("%d success returns on the fallback path (expected one)", len(rets)))
-			return
+		verdict, at, inFn := fallbackCompare(c, fn, L, R, isMarsh, deflt, 0)
+		if at != nil {
+			pos = c.P.InstrPos(at)
 		}
-		r := rets[0]
-		call, _ := r.Results[0].(*ssa.Call)
-		ok := false
-		if call != nil {
-			if sc := ir.Callee(call.Common()); sc != nil && fxFullName(sc) == "bytes.Compare" {
-				a, b := marshalledSide(fn, call.Common().Args[0]), marshalledSide(fn, call.Common().Args[1])
-				ok = a == "L" && b == "R"
-			}
-		}
-		if ok {
-			c.OK(c.P.InstrPos(r), construct, "returns bytes.Compare(marshal(i), marshal(i2))", false)
-		} else {
-			c.Violation(fn, c.P.InstrPos(r), construct, "the fallback no longer returns bytes.Compare(b, b2) with b = marshal(first argument), b2 = marshal(second argument)")
+		switch verdict {
+		case "ok":
+			c.OK(pos, construct, "returns bytes.Compare(marshal(i), marshal(i2))", false)
+		case "bad":
+			c.Violation(inFn, pos, construct, "the fallback no longer returns bytes.Compare(b, b2) with b = marshal(first argument), b2 = marshal(second argument)")
+		default:
+			c.Undecided(inFn, pos, construct, verdict)
 		}
 	}
+}
+
+// delegatedComparator: fn does nothing but return the results of one static
+// in-repo call that receives both operands; returns the callee and its
+// parameters standing for L, R and the marshaler.
+func delegatedComparator(fn *ssa.Function, L, R ssa.Value, isMarsh func(ssa.Value) bool) (callee *ssa.Function, pL, pR, pM ssa.Value) {
+	var call *ssa.Call
+	for _, r := range ir.Returns(fn) {
+		if len(r.Results) == 0 {
+			return nil, nil, nil, nil
+		}
+		cl, _ := fxCallOf(r.Results[0])
+		if cl == nil || (call != nil && cl != call) {
+			return nil, nil, nil, nil
+		}
+		call = cl
+	}
+	if call == nil {
+		return nil, nil, nil, nil
+	}
+	callee = ir.Callee(call.Call)
+	if callee == nil || !fxOwnFunc(callee) {
+		return nil, nil, nil, nil
+	}
+	for i, a := range call.Call.Args {
+		if i >= len(callee.Params) {
+			break
+		}
+		switch {
+		case fxStripNoConv(a) == L:
+			pL = callee.Params[i]
+		case fxStripNoConv(a) == R:
+			pR = callee.Params[i]
+		case isMarsh(a):
+			pM = callee.Params[i]
+		}
+	}
+	if pL == nil || pR == nil {
+		return nil, nil, nil, nil
+	}
+	return callee, pL, pR, pM
+}
+
+// fallbackCompare checks that the path from block `from` (dynamic types equal,
+// no marshal error) returns bytes.Compare(marshal(L), marshal(R)); a return
+// that hands on the results of a static in-repo call receiving both operands
+// is followed (depth ≤ 2). verdict is "ok", "bad" or an undecided reason.
+func fallbackCompare(c *Ctx, fn *ssa.Function, L, R ssa.Value, isMarsh func(ssa.Value) bool, from *ssa.BasicBlock, depth int) (verdict string, at ssa.Instruction, inFn *ssa.Function) {
+	side := func(v ssa.Value) string { return sideOfLR(L, R, v) }
+	as := okAssumeSides(fn, side, nil, nil, 1)
+	reach := as.reach(from)
+	rets := successIn(fn, reach)
+	if len(rets) == 0 && depth < 2 {
+		// no direct success return: a delegating return?
+		var call *ssa.Call
+		n := 0
+		ei := ir.ErrorResultIndex(fn.Signature)
+		for _, r := range ir.Returns(fn) {
+			if !reach[r.Block()] || ei < 0 || ei >= len(r.Results) || freshError(r.Results[ei]) {
+				continue
+			}
+			cl, idx := fxCallOf(r.Results[0])
+			if cl == nil || idx != 0 {
+				continue
+			}
+			n++
+			call = cl
+		}
+		if n == 1 {
+			callee := ir.Callee(call.Call)
+			if callee != nil && fxOwnFunc(callee) {
+				var pL, pR, pM ssa.Value
+				for i, a := range call.Call.Args {
+					if i >= len(callee.Params) {
+						break
+					}
+					switch {
+					case fxStripNoConv(a) == L:
+						pL = callee.Params[i]
+					case fxStripNoConv(a) == R:
+						pR = callee.Params[i]
+					case isMarsh(a):
+						pM = callee.Params[i]
+					}
+				}
+				if pL != nil && pR != nil {
+					m := pM
+					return fallbackCompare(c, callee, pL, pR, func(v ssa.Value) bool { return m != nil && fxStripNoConv(v) == m }, callee.Blocks[0], depth+1)
+				}
+				return "bad", call, fn
+			}
+		}
+	}
+	if len(rets) != 1 {
+		return fmt.Sprintf("%d success returns on the fallback path (expected one)", len(rets)), nil, fn
+	}
+	r := rets[0]
+	call, _ := r.Results[0].(*ssa.Call)
+	if call != nil {
+		if sc := ir.Callee(call.Common()); sc != nil && fxFullName(sc) == "bytes.Compare" {
+			a, b := marshalledSideLR(L, R, isMarsh, call.Common().Args[0]), marshalledSideLR(L, R, isMarsh, call.Common().Args[1])
+			if a == "L" && b == "R" {
+				return "ok", r, fn
+			}
+		}
+	}
+	return "bad", r, fn
 }
 
 func isFloatType(t types.Type) bool {
@@ -1208,22 +1330,36 @@ func orderedResults(c *Ctx, fn *ssa.Function, side func(ssa.Value) string, from 
 // marshalledSide: v is result #0 of a call of the captured marshaler on one of
 // fn's parameters.
 func marshalledSide(fn *ssa.Function, v ssa.Value) string {
+	return marshalledSideLR(fn.Params[0], fn.Params[1], isCapturedFunc, v)
+}
+
+// isCapturedFunc: v is a captured variable (read through its cell).
+func isCapturedFunc(v ssa.Value) bool {
+	if _, ok := ir.ResolveCell(v).(*ssa.FreeVar); ok {
+		return true
+	}
+	if u, ok := v.(*ssa.UnOp); ok && u.Op == token.MUL {
+		_, ok := u.X.(*ssa.FreeVar)
+		return ok
+	}
+	return false
+}
+
+// marshalledSideLR: v is result #0 of a call of the marshaler (recognised by
+// isMarsh) on operand L or R.
+func marshalledSideLR(L, R ssa.Value, isMarsh func(ssa.Value) bool, v ssa.Value) string {
 	call, idx := fxCallOf(v)
 	if call == nil || idx != 0 || call.Common().IsInvoke() || ir.Callee(call.Common()) != nil || len(call.Common().Args) != 1 {
 		return ""
 	}
-	if _, ok := ir.ResolveCell(call.Common().Value).(*ssa.FreeVar); !ok {
-		if u, ok := call.Common().Value.(*ssa.UnOp); !ok || u.Op != token.MUL {
-			return ""
-		} else if _, ok := u.X.(*ssa.FreeVar); !ok {
-			return ""
-		}
+	if !isMarsh(call.Common().Value) {
+		return ""
 	}
 	a := fxStripNoConv(call.Common().Args[0])
-	if a == ssa.Value(fn.Params[0]) {
+	if a == L {
 		return "L"
 	}
-	if a == ssa.Value(fn.Params[1]) {
+	if a == R {
 		return "R"
 	}
 	return ""
@@ -1244,7 +1380,7 @@ func okAssumeSides(fn *ssa.Function, side func(ssa.Value) string, T types.Type, 
 	return &fxAssume{
 		decide: func(cond ssa.Value) (bool, bool) {
 			if e, ok := cond.(*ssa.Extract); ok && e.Index == 1 {
-				if ta, ok := e.Tuple.(*ssa.TypeAssert); ok && T != nil && len(fn.Params) > 1 && fxStripNoConv(ta.X) == ssa.Value(fn.Params[1]) && types.Identical(ta.AssertedType, T) {
+				if ta, ok := e.Tuple.(*ssa.TypeAssert); ok && T != nil && side(ta.X) == "R" && types.Identical(ta.AssertedType, T) {
 					return true, true
 				}
 			}
@@ -1791,28 +1927,19 @@ func runFormatTrim(c *Ctx) {
 	if fn == nil {
 		return
 	}
-	recv := fn.Params[0]
-	// the call of the marshal parameter
-	var mcall *ssa.Call
-	for _, ci := range CallsOf(fn) {
-		call, ok := ci.(*ssa.Call)
-		if !ok || ci.Common().IsInvoke() || ir.Callee(ci.Common()) != nil {
-			continue
-		}
-		if p, ok := ir.ResolveCell(ci.Common().Value).(*ssa.Parameter); ok && len(ci.Common().Args) == 1 {
-			if _, isSig := p.Type().Underlying().(*types.Signature); isSig {
-				if mcall != nil {
-					c.Undecided(fn, c.P.InstrPos(ci), "marshal call", "the marshal callback is called more than once")
-					return
-				}
-				mcall = call
-			}
-		}
+	// the call of the marshal parameter: in the store function itself or in a
+	// helper (depth ≤ 2) that receives the node and the marshal function
+	storeFn, storeRecv := fn, fn.Params[0]
+	mf, recv, menv, mcall, problem := locateMarshalCall(storeFn, storeFn, storeRecv, nil, 0)
+	if problem != "" {
+		c.Undecided(fn, c.P.Pos(fn.Pos()), "marshal call", problem)
+		return
 	}
 	if mcall == nil {
 		c.AnchorMissing("call of the marshal parameter in (*mastNode).store")
 		return
 	}
+	fn = mf
 	arg := fxStripNoConv(mcall.Call.Args[0])
 	ld, ok := arg.(*ssa.UnOp)
 	var copyA *ssa.Alloc
@@ -1886,7 +2013,13 @@ func runFormatTrim(c *Ctx) {
 		if fxConst(x) != nil {
 			x, y = y, x
 		}
-		x, cfn, crecv = resolveCounter(x, fn, recv, 0)
+		if _, isParam := x.(*ssa.Parameter); isParam && menv != nil {
+			// the count is handed to the helper as an argument: look at the caller's value
+			x, _ = menv.resolve(x)
+			x, cfn, crecv = resolveCounter(x, storeFn, storeRecv, 0)
+		} else {
+			x, cfn, crecv = resolveCounter(x, fn, recv, 0)
+		}
 		if p, isPhi := x.(*ssa.Phi); isPhi && fxIsIntConst(y, 0) {
 			counter = p
 			if (bin.Op == token.EQL) != g.Truth {
@@ -1988,6 +2121,80 @@ func resolveCounter(x ssa.Value, fn *ssa.Function, recv ssa.Value, depth int) (s
 		return x, fn, recv
 	}
 	return resolveCounter(val, callee, nodeParam, depth+1)
+}
+
+// locateMarshalCall finds the call of the marshal function parameter with the
+// node as its only argument: in fn, or in a static in-repo helper (depth ≤ 2,
+// not the store function itself) that receives both the node and a function
+// parameter. It returns the function holding the call, the parameter standing
+// for the node there, and the binding of the helper's parameters.
+func locateMarshalCall(root, fn *ssa.Function, recv *ssa.Parameter, env *fxEnv, depth int) (*ssa.Function, *ssa.Parameter, *fxEnv, *ssa.Call, string) {
+	var mcall *ssa.Call
+	for _, ci := range CallsOf(fn) {
+		call, ok := ci.(*ssa.Call)
+		if !ok || ci.Common().IsInvoke() || ir.Callee(ci.Common()) != nil {
+			continue
+		}
+		if p, ok := ir.ResolveCell(ci.Common().Value).(*ssa.Parameter); ok && len(ci.Common().Args) == 1 {
+			if _, isSig := p.Type().Underlying().(*types.Signature); isSig {
+				if mcall != nil {
+					return nil, nil, nil, nil, "the marshal callback is called more than once"
+				}
+				mcall = call
+			}
+		}
+	}
+	if mcall != nil {
+		return fn, recv, env, mcall, ""
+	}
+	if depth >= 2 {
+		return nil, nil, nil, nil, ""
+	}
+	var found []func() (*ssa.Function, *ssa.Parameter, *fxEnv, *ssa.Call, string)
+	for _, ci := range CallsOf(fn) {
+		call, ok := ci.(*ssa.Call)
+		if !ok {
+			continue
+		}
+		callee := ir.Callee(call.Call)
+		if callee == nil || !fxOwnFunc(callee) || callee == root || callee == fn {
+			continue
+		}
+		var nodeP *ssa.Parameter
+		hasFunc := false
+		sub := &fxEnv{bind: map[*ssa.Parameter]ssa.Value{}, up: env}
+		for i, a := range call.Call.Args {
+			if i >= len(callee.Params) {
+				break
+			}
+			sub.bind[callee.Params[i]] = a
+			if ir.ResolveCell(a) == ssa.Value(recv) {
+				nodeP = callee.Params[i]
+			}
+			if p, ok := ir.ResolveCell(a).(*ssa.Parameter); ok {
+				if _, isSig := p.Type().Underlying().(*types.Signature); isSig {
+					hasFunc = true
+				}
+			}
+		}
+		if nodeP == nil || !hasFunc {
+			continue
+		}
+		f2, r2, e2, m2, p2 := locateMarshalCall(root, callee, nodeP, sub, depth+1)
+		if p2 != "" {
+			return nil, nil, nil, nil, p2
+		}
+		if m2 != nil {
+			found = append(found, func() (*ssa.Function, *ssa.Parameter, *fxEnv, *ssa.Call, string) { return f2, r2, e2, m2, "" })
+		}
+	}
+	switch len(found) {
+	case 0:
+		return nil, nil, nil, nil, ""
+	case 1:
+		return found[0]()
+	}
+	return nil, nil, nil, nil, "the marshal callback is called in several helpers"
 }
 
 // blockHasNil: on entry to b a dominating branch established that a value
